@@ -250,6 +250,19 @@ func init() {
 				return tryRes(e, try.FoldSeqT(tryOpOf(e, 1, fp.Seq[int]{2, 3, 4}), 0, func(z int, i int) int { e.call(i); return e.h(z, i) }))
 			},
 			want: func(e E) int { return e.h(e.h(e.h(0, 2), 3), 4) }},
+		c02case{name: "try.TraverseSeqT/3", pos: []int{pVal, pStep, pStep, pStep},
+			run: func(e E) c02res {
+				return tryResOf(e, try.TraverseSeqT(tryOpOf(e, 1, fp.Seq[int]{2, 3, 4}), func(i int) fp.Try[int] { e.call(i); return tryRet(e, i, e.v(i)) }), func(s fp.Seq[int]) int { return e.h(s...) })
+			},
+			want: func(e E) int { return e.h(e.v(2), e.v(3), e.v(4)) }},
+		c02case{name: "try.FlatMapSeqT/3", pos: []int{pVal, pStep, pStep, pStep},
+			run: func(e E) c02res {
+				return tryResOf(e, try.FlatMapSeqT(tryOpOf(e, 1, fp.Seq[int]{2, 3, 4}), func(i int) fp.Try[fp.Seq[int]] {
+					e.call(i)
+					return tryOpOf(e, i, fp.Seq[int]{e.v(i), i})
+				}), func(s fp.Seq[int]) int { return e.h(s...) })
+			},
+			want: func(e E) int { return e.h(e.v(2), 2, e.v(3), 3, e.v(4), 4) }},
 		c02case{name: "try.FilterSeqT/2", pos: []int{pVal, pFn, pFn},
 			run: func(e E) c02res {
 				return tryResOf(e, try.FilterSeqT(tryOpOf(e, 1, fp.Seq[int]{2, 3}), func(i int) bool { e.call(i); return true }), func(s fp.Seq[int]) int { return e.h(s...) })
